@@ -1093,6 +1093,26 @@ def r_tol(ctx):
     return rep
 
 
+def r_tol_strict(ctx):
+    """the strict-mode row of R-TOL only (what C06 needs): with no error tolerated every corruption kind is still raised and no untyped header is accepted"""
+    import re
+    rep = r_tol(ctx)
+    rep.rule = "R-TOL-STRICT"
+    rep.clause = "strict mode (allowed_errors = 0): unknown ids, hierarchy errors, overruns, oversized tags and invalid data are all still raised and no untyped header is accepted (row mask=0 of R-TOL)"
+    keep = []
+    dropped = 0
+    for f in rep.findings:
+        m = re.search(r"\|mask=(\d+)", f.key)
+        if m and int(m.group(1)) != 0:
+            dropped += 1
+            continue
+        keep.append(f)
+    rep.findings = keep
+    rep.obligations -= dropped
+    rep.instances = [i for i in rep.instances if not re.search(r"mask[= ]([1-7])\b", str(i))] or rep.instances
+    return rep
+
+
 def r_tol_default(ctx):
     rep = RuleReport("R-TOL-DEFAULT", "allowed_errors and max_allowed_tag_size are written only by the constructor (0 and Some(limit > 0)) and their setters; "
                      "emit_master_end_when_eof only by the constructor and its setter")
